@@ -70,6 +70,50 @@ def check_rejection(sh, rng):
     G.unload(mod)
 
 
+CHAIN_SRC = '''
+from pymtl3 import *
+class ChainTop(Component):
+  def construct(s):
+    s.in_ = InPort(8); s.log = []
+    s.w = [Wire(8) for _ in range(%d)]
+%s
+    s.add_constraints( %s )
+'''
+
+
+def check_chained(sh, rng):
+  """U(a) < U(b) < U(c) written as ONE python comparison chain: either the component refuses it when it is constructed, or BOTH
+  orders are honoured by every pass group (python evaluates the chain as (U(a) < U(b)) and (U(b) < U(c)))"""
+  n = rng.randrange(3, 6)
+  names = [f"up_{c}" for c in rng.sample("abcdefgh", n)]
+  order = list(names); rng.shuffle(order)                       # required execution order
+  blocks = "\n".join(f"    @update\n    def {nm}():\n      s.w[{i}] @= s.in_ + {i}\n      s.log.append('{nm}')" for i, nm in enumerate(names))
+  k = rng.randrange(0, n - 2)
+  cons = [f"U({order[i]}) < U({order[i + 1]})" for i in range(n - 1)]
+  chained = cons[:k] + [f"U({order[k]}) < U({order[k + 1]}) < U({order[k + 2]})"] + cons[k + 2:]
+  src = CHAIN_SRC % (n, blocks, ", ".join(chained))
+  mod = G.load_source(src, "c02chain")
+  try:
+    for mode in PASS_MODES:
+      try:
+        top = mod.ChainTop()
+        simmon.apply_mode(top, mode, rng)
+      except TypeError:
+        sh.count("chained_constraints_refused"); continue
+      top.in_ @= 1; top.log.clear()
+      top.sim_eval_combinational()
+      seen = [x for x in top.log]
+      pos = {nm: seen.index(nm) for nm in names if nm in seen}
+      sh.count("chained_constraint_orders_checked")
+      for i in range(n - 1):
+        a, b = order[i], order[i + 1]
+        if a in pos and b in pos and not pos[a] < pos[b]:
+          sh.violation("chained-explicit-constraint-not-honoured", {"mode": mode, "constraints": ", ".join(chained), "required": f"{a} before {b}",
+                       "executed": seen, "source": src}); return
+  finally:
+    G.unload(mod)
+
+
 # ---------------------------------------------------------------------------
 # FL / greenlet stream: blocks that call @blocking methods are wrapped into greenlets by WrapGreenletPass; the ordering
 # constraints (through signals, overlapping slices, explicit U<U) must survive the wrapping for 0, 1 or 2 wrapped endpoints
@@ -337,3 +381,4 @@ def run_shard(sh):
   rng = sh.rng("rej")
   for _ in range(2):
     check_rejection(sh, rng)
+    check_chained(sh, rng)
